@@ -135,13 +135,52 @@ fn chain_world(ch: &Ch) -> World {
 }
 
 fn body_with(generate: impl Fn(&Ch) -> World + Sync + Send, depth: usize) -> impl Fn(&Ch) -> Run + Sync + Send {
+  body_with_alts(generate, depth, false)
+}
+
+/// Twin worlds for same-length edits: m0 (root) imports m2 in one of three
+/// forms, m2 may import m4; m3 is m2's twin (same kind, same file-name length).
+fn twin_world(ch: &Ch) -> World {
+  let form = *ch.pick("form_of_the_edited_import", &[Form::Import, Form::Dynamic, Form::ImportType, Form::ExportStar]);
+  let mut edges = vec![Edge { src: 0, form, dst: Target::Spec(2), aux: 0 }];
+  if ch.flag("m2_imports_m4") {
+    edges.push(Edge { src: 2, form: Form::Import, dst: Target::Spec(4), aux: 0 });
+  }
+  if ch.flag("m3_imports_m4") {
+    edges.push(Edge { src: 3, form: Form::Import, dst: Target::Spec(4), aux: 0 });
+  }
+  World {
+    remote: ch.flag("remote"),
+    kinds: vec![Kind::Ts; 5],
+    attrs: vec![Attr::None; 5],
+    redirect_to: vec![0; 5],
+    edges,
+    types_header: None,
+    n_roots: 2,
+  }
+}
+
+/// `same_length_alts`: every module's alternative import list is its own list
+/// with each target swapped for its twin (an edit that keeps the byte length of
+/// the source), and the builds of the history may share one capturing analyzer.
+fn body_with_alts(generate: impl Fn(&Ch) -> World + Sync + Send, depth: usize, same_length_alts: bool) -> impl Fn(&Ch) -> Run + Sync + Send {
   move |ch: &Ch| {
     let mut run = Run::default();
     let world = generate(ch);
     let n_specs = world.kinds.len();
+    let capturing = deno_graph::ast::CapturingModuleAnalyzer::default();
+    let share_analyzer = same_length_alts && ch.flag("builds_and_reloads_share_one_capturing_analyzer");
     // one alternative import list per source module (default: no imports)
     let mut alt: Vec<Option<Vec<Edge>>> = vec![None; n_specs];
     for i in 0..n_specs {
+      if same_length_alts {
+        let twin = |t: usize| match t { 2 => 3, 3 => 2, o => o };
+        let mine: Vec<Edge> = world.edges.iter().filter(|e| e.src == i).cloned().collect();
+        if mine.iter().any(|e| matches!(e.dst, Target::Spec(t) if twin(t) != t)) {
+          alt[i] = Some(mine.into_iter().map(|mut e| { if let Target::Spec(t) = e.dst { e.dst = Target::Spec(twin(t)); } e }).collect());
+        }
+        continue;
+      }
       let fixable = matches!(world.kinds[i], Kind::Missing | Kind::BadSyntax | Kind::Error);
       if !world.kinds[i].has_source() && !fixable {
         continue;
@@ -156,7 +195,7 @@ fn body_with(generate: impl Fn(&Ch) -> World + Sync + Send, depth: usize) -> imp
         let form = if world.attrs[t] != Attr::None
           && !matches!(
             form,
-            Form::Import | Form::SideEffect | Form::ExportStar | Form::ExportNamed | Form::Dynamic | Form::StaticAndDynamic | Form::DynamicAndStatic
+            Form::Import | Form::SideEffect | Form::ExportStar | Form::ExportNamed | Form::Dynamic | Form::StaticAndDynamic | Form::DynamicAndStatic | Form::ImportType | Form::ExportType
           ) {
           Form::Import
         } else if form == Form::TsTypesPragma {
@@ -222,6 +261,7 @@ fn body_with(generate: impl Fn(&Ch) -> World + Sync + Send, depth: usize) -> imp
         unstable_bytes: true,
         unstable_text: true,
         is_dynamic,
+        module_analyzer: if share_analyzer { Some(&capturing) } else { None },
         ..Default::default()
       };
       let mut reloaded: Option<usize> = None;
@@ -313,7 +353,7 @@ fn body_with(generate: impl Fn(&Ch) -> World + Sync + Send, depth: usize) -> imp
       run.evals += 1;
       outcome.push(hash_json(&f["slots"]));
       let case = |extra: Value| {
-        json!({"world": world.describe(), "graph_kind": format!("{kind:?}"), "roots_are_dynamic_imports": is_dynamic, "alt_imports": alt.iter().enumerate().filter_map(|(i, a)| a.as_ref().map(|e| {
+        json!({"world": world.describe(), "graph_kind": format!("{kind:?}"), "roots_are_dynamic_imports": is_dynamic, "shared_capturing_analyzer": share_analyzer, "alt_imports": alt.iter().enumerate().filter_map(|(i, a)| a.as_ref().map(|e| {
             let mut w = world.clone(); w.edges = e.clone(); json!({"module": world.spec(i), "source": w.render(i).0})})).collect::<Vec<_>>(),
           "history": history, "detail": extra})
       };
@@ -412,7 +452,7 @@ fn body_with(generate: impl Fn(&Ch) -> World + Sync + Send, depth: usize) -> imp
       }
       let _ = step;
     }
-    run.state_key = hash_of(&(world.key(), format!("{alt:?}{kind:?}{is_dynamic}"), history.clone()));
+    run.state_key = hash_of(&(world.key(), format!("{alt:?}{kind:?}{is_dynamic}{share_analyzer}"), history.clone()));
     run.nontrivial = history.len() >= 2;
     run.outcome_key = hash_of(&outcome);
     if ch.describe() {
@@ -441,6 +481,12 @@ pub fn prop(tier: Tier) -> Prop {
       what: "3-specifier worlds x one alternative import list per module; all histories of <= 3 operations from {build(r0), build(r1), build(r0,r1), edit+reload(m)}",
     },
     Part {
+      name: "same-length-edits",
+      body: Box::new(body_with_alts(twin_world, 3, true)),
+      modes: vec![Mode::Deviations(0), Mode::Deviations(1)],
+      what: "twin worlds: an edit swaps an import target for a module of the same name length (the source keeps its byte length); builds and reloads optionally share one CapturingModuleAnalyzer (its parse cache must notice the edit)",
+    },
+    Part {
       name: "chains",
       body: Box::new(body_with(chain_world, 3)),
       modes: vec![Mode::Deviations(0), Mode::Deviations(1)],
@@ -452,6 +498,12 @@ pub fn prop(tier: Tier) -> Prop {
         body: Box::new(body(Space::generic(3, 2), 4)),
         modes: vec![Mode::Deviations(1), Mode::Deviations(2), Mode::Deviations(3)],
         what: "3-specifier worlds, histories of <= 4 operations",
+      },
+      Part {
+        name: "same-length-edits",
+        body: Box::new(body_with_alts(twin_world, 4, true)),
+        modes: vec![Mode::Deviations(1), Mode::Deviations(2)],
+        what: "twin worlds, same-length edits, optionally one shared CapturingModuleAnalyzer, histories of <= 4 operations",
       },
       Part {
         name: "chains",
